@@ -478,21 +478,47 @@ def produced_keys(idx: Index, m: Module, fn, iter_expr):
                 if isinstance(r, ast.Return) and isinstance(r.value, ast.Dict) and r.value.keys and \
                         all(isinstance(k, ast.Constant) for k in r.value.keys):
                     consts = [k.value for k in r.value.keys]
-            # dict built by subscript stores with f-string names
+            # dict built by subscript stores with f-string names (in the callee or in helpers it calls)
             sufs = set()
-            for st in ast.walk(f2):
+            scope = [f2]
+            seen_fn = {id(f2)}
+            by_name = {}
+            for fx in m2.all_functions():
+                by_name.setdefault(fx.name, fx)
+            qi = 0
+            while qi < len(scope):
+                for cx in calls_in(scope[qi]):
+                    dx = (dotted(cx.func) or "").split(".")[-1]
+                    if dx in by_name and id(by_name[dx]) not in seen_fn:
+                        seen_fn.add(id(by_name[dx]))
+                        scope.append(by_name[dx])
+                qi += 1
+            owner = {}
+            walk_nodes = []
+            for fx in scope:
+                for n_ in ast.walk(fx):
+                    walk_nodes.append(n_)
+                    owner.setdefault(id(n_), fx)
+            returned = {dotted(r_.value) for r_ in ast.walk(f2) if isinstance(r_, ast.Return) and r_.value is not None}
+            for st in walk_nodes:
                 if isinstance(st, ast.Assign) and isinstance(st.targets[0], ast.Subscript):
                     key = st.targets[0].slice
+                    base_is_result = dotted(st.targets[0].value) in returned
                     if isinstance(key, ast.JoinedStr):
                         sufs.add(str(key.values[-1].value) if isinstance(key.values[-1], ast.Constant) else None)
-                    if isinstance(key, ast.Name):
-                        for s3 in ast.walk(f2):
-                            if isinstance(s3, ast.Assign) and any(dotted(t) == key.id for t in s3.targets):
-                                v = s3.value
-                                if isinstance(v, ast.JoinedStr) and isinstance(v.values[-1], ast.Constant):
-                                    sufs.add(str(v.values[-1].value))
-                                else:
-                                    sufs.add(None)
+                    elif isinstance(key, ast.Name):
+                        defs = [s3.value for s3 in ast.walk(owner[id(st)])
+                                if isinstance(s3, ast.Assign) and any(dotted(t) == key.id for t in s3.targets)]
+                        fdefs = [v for v in defs if isinstance(v, ast.JoinedStr)]
+                        if fdefs:
+                            for v in fdefs:
+                                sufs.add(str(v.values[-1].value) if isinstance(v.values[-1], ast.Constant) else None)
+                            if len(fdefs) != len(defs):
+                                sufs.add(None)
+                        elif base_is_result:
+                            sufs.add(None)
+                    elif base_is_result:
+                        sufs.add(None)
             if sufs and None not in sufs and len(sufs) == 1:
                 suffix = next(iter(sufs))
     return consts, suffix
